@@ -22,7 +22,7 @@ def semantic_search(facts_spirv, dump, ref, sweep=None):
     refe = {e["name"]: e for e in ref["enums"]}
     reff = {f["name"]: f for f in ref["flags"]}
     seen = set()
-    for e in dump["enums"]:
+    for e in (dump["enums"] if dump else []):
         name = e["name"]
         seen.add(name)
         r = refe.get(name)
@@ -44,10 +44,10 @@ def semantic_search(facts_spirv, dump, ref, sweep=None):
             want = s if s in by_name else alias.get(s)
             if want != res:
                 bad.append({"type": name, "input": s, "what": "FromStr result differs from the declared name/alias", "got": res, "want": want})
-    for name in refe:
+    for name in (refe if dump else []):
         if name not in seen:
             bad.append({"type": name, "what": "reference enumeration missing from the crate"})
-    for f in dump["flags"]:
+    for f in (dump["flags"] if dump else []):
         r = reff.get(f["name"])
         if r is None:
             bad.append({"type": f["name"], "what": "mask type not in the reference grammar"})
@@ -141,7 +141,7 @@ def run(rep):
             rep.cov["sweep_2_32"] = {"types": len(sweep["enums"]) + len(sweep["flags"]), "wall_s": round(dt, 1)}
             rep.cov["exhaustive"] = True
     ok, info = pipeline.proof_stage(rep, PROP, broken)
-    bad = semantic_search(facts["spirv"], dump, ref, sweep) if dump is not None else []
+    bad = semantic_search(facts["spirv"], dump, ref, sweep)
     if dump is not None:
         ev = sum(len(e["from_u32"]) + len(e["from_str"]) for e in dump["enums"]) + sum(len(f["from_bits"]) for f in dump["flags"])
         nt = set()
